@@ -1,6 +1,6 @@
 #!/usr/bin/env python3
 """Run the checks against the independently seeded changes (seeded/index.json).
-usage: run_seeds.py [--only SUBSTR] [--prop Cxx] [--json OUT]
+usage: run_seeds.py [--only SUBSTR] [--prop Cxx] [--json OUT] [--jobs N]
 exit 0 if every seed that is expected to be caught is reported by the named rule (and the seeds
 recorded as not caught stay silent), 1 otherwise."""
 import json
@@ -19,8 +19,7 @@ def main():
     only = args[args.index('--only') + 1] if '--only' in args else None
     prop = args[args.index('--prop') + 1] if '--prop' in args else None
     idx = json.load(open(os.path.join(VERIF, 'seeded', 'index.json')))['seeds']
-    bad = 0
-    out = []
+    sel = []
     for e in idx:
         if only and only not in e['seed']:
             continue
@@ -29,13 +28,17 @@ def main():
             if prop not in props:
                 continue
             props = [prop]
+        sel.append((e, props))
+
+    def run_one(item, target):
+        e, props = item
         t0 = time.time()
         d = mutant.make_scratch()
-        res = {'seed': e['seed'], 'results': {}, 'as_expected': True}
+        res = {'seed': e['seed'], 'results': {}, 'as_expected': True, 'not_caught': bool(e.get('not_caught'))}
         try:
             mutant.apply_patch(d, os.path.join(VERIF, 'seeded', e['seed'], 'patch.diff'))
             for p in props:
-                rc, keys, outp = mutant.run_check(d, p)
+                rc, keys, outp = mutant.run_check(d, p, target=target)
                 exp = (e.get('expect_per_prop') or {}).get(p, e.get('expect'))
                 if e.get('not_caught'):
                     ok = rc == 0
@@ -51,9 +54,14 @@ def main():
         finally:
             shutil.rmtree(d, ignore_errors=True)
         res['wall_s'] = round(time.time() - t0, 1)
+        return res
+
+    bad = 0
+    out = []
+    for res in mutant.parallel_map(run_one, sel, mutant.jobs_arg(args)):
         out.append(res)
-        tag = ('NOT-CAUGHT(recorded)' if e.get('not_caught') else 'CAUGHT') if res['as_expected'] else 'UNEXPECTED'
-        print('%s %s %s (%.0fs)' % (tag, e['seed'], {p: v['keys'][:2] for p, v in res['results'].items()}, res['wall_s']), flush=True)
+        tag = ('NOT-CAUGHT(recorded)' if res['not_caught'] else 'CAUGHT') if res['as_expected'] else 'UNEXPECTED'
+        print('%s %s %s (%.0fs)' % (tag, res['seed'], {p: v['keys'][:2] for p, v in res['results'].items()}, res['wall_s']), flush=True)
         if not res['as_expected']:
             bad += 1
             print(json.dumps(res, indent=1)[:1200])
